@@ -327,6 +327,32 @@ def _create_empty_table(
     return conn.table(table_name)
 
 
+def _detect_parquet_date_overrides(
+    conn: duckdb.DuckDBPyConnection,
+    file_path: Path,
+    components: Dict[str, Component],
+    parquet_types: Dict[str, str],
+) -> Dict[str, str]:
+    """Determine which Date columns of a Parquet file need TIMESTAMP instead of DATE."""
+    overrides: Dict[str, str] = {}
+    for comp_name, comp in components.items():
+        if comp.data_type != Date or comp_name not in parquet_types:
+            continue
+        source_type = parquet_types[comp_name].upper()
+        if source_type.startswith("TIMESTAMP"):
+            probe = f"CAST(\"{comp_name}\" AS TIME) != TIME '00:00:00'"
+        elif "VARCHAR" in source_type:
+            probe = f'length("{comp_name}") > 10'
+        else:
+            continue
+        row = conn.execute(
+            f"SELECT bool_or({probe}) FROM read_parquet('{file_path}')"
+        ).fetchone()
+        if row is not None and row[0]:
+            overrides[comp_name] = "TIMESTAMP"
+    return overrides
+
+
 def _load_parquet(
     conn: duckdb.DuckDBPyConnection,
     components: Dict[str, Component],
@@ -336,10 +362,13 @@ def _load_parquet(
     """Load a Parquet file into a DuckDB table via read_parquet."""
     id_columns = [n for n, c in components.items() if c.role == Role.IDENTIFIER]
 
-    conn.execute(build_create_table_sql(dataset_name, components))
-
     try:
         parquet_cols, parquet_types = _read_parquet_columns(conn, file_path)
+
+        # Date columns holding a time of day are stored as TIMESTAMP, as on the CSV and
+        # DataFrame paths (a DATE column would silently drop the time part)
+        type_overrides = _detect_parquet_date_overrides(conn, file_path, components, parquet_types)
+        conn.execute(build_create_table_sql(dataset_name, components, type_overrides))
 
         if len(set(parquet_cols)) != len(parquet_cols):
             duplicates = list({item for item in parquet_cols if parquet_cols.count(item) > 1})
@@ -353,7 +382,10 @@ def _load_parquet(
         check_missing_identifiers(id_columns, keep_columns, file_path)
 
         select_exprs = _build_dataframe_select_columns(
-            components, df_columns=parquet_cols, source_types=parquet_types
+            components,
+            df_columns=parquet_cols,
+            type_overrides=type_overrides,
+            source_types=parquet_types,
         )
 
         action_filter = ""
